@@ -11,7 +11,10 @@ ATOMS = ["{{", "}}", "{{{", "}}}", "[[", "]]", "[", "]", "|", "||", "!", "!!", "
          "<math>", "</math>", "<section begin=a/>", "<noinclude/>", "<includeonly>", "http://x.y", "[http://x.y t]", "https://",
          "__TOC__", "__NOTOC__", "&amp;", "&lt;", "&#91;", "text", "word ", "A", "é", "名", ":", ";", "#REDIRECT", "~~~~",
          "{{a|x}}", "{{#if:x|y}}", "{{PAGENAME}}", "[[a|b]]", "[[File:x.png|thumb|c]]", "{{{1|d}}}", "<", ">", "/", "\t", "-{", "}-",
-         "<nowiki></nowiki>", "<nowiki></nowiki>", "<!-- c -->", "== H ==\n", "a=b", "style=\"c\"", "\"", "'"]
+         "<nowiki></nowiki>", "<nowiki></nowiki>", "<!-- c -->", "== H ==\n", "a=b", "style=\"c\"", "\"", "'",
+         # blanks other than the ASCII ones, alone and inside tags (the tokenizer and the tag handler must agree on them)
+         "\u00a0", "\u2003", "\u3000", "\x85", "\x1c", "\u2028", "<div\u00a0class=\"x\">", "</span\u00a0>", "<br\u2003/>", "<b\u3000>",
+         "<span class\u00a0=\u2003\"c\">", "</div\x85>", "<ref\u00a0name=a/>", "<li\x1c>", "<DIV>", "</Div >", "<BR/>"]
 MAGIC = "\U00102041"
 
 
